@@ -262,15 +262,21 @@ def main(argv):
         seen.add(o['name']); uniq.append(o)
     mine = uniq
     violations, known_lines, notes = [], [], []
+    wit_cache, reported = {}, set()
     known_obl_names = []
     os.makedirs(os.path.join(ROOT, 'replays'), exist_ok=True)
     for o in mine:
         ks = [k for k in known if k.get('status') == 'known' and witness.match_obligation(k, o)]
         handled = False
         for k in ks:
-            ok, detail = witness.run_witness(k.get('witness'), tier)
+            key_ = json.dumps(k, sort_keys=True)
+            if key_ not in wit_cache:
+                wit_cache[key_] = witness.run_witness(k.get('witness'), tier)
+            ok, detail = wit_cache[key_]
             if ok:   # witness still fails on the real code
-                known_lines.append('KNOWN-FINDING: property=%s %s [obligation %s; witness: %s]' % (pid, k['class'], o['name'], detail))
+                if key_ not in reported:   # one line per listed finding, however many obligations / inputs of its class fail
+                    reported.add(key_)
+                    known_lines.append('KNOWN-FINDING: property=%s %s [obligation %s; witness: %s]' % (pid, k['class'], o['name'], detail))
                 known_obl_names.append(o['name'])
                 handled = True
                 break
